@@ -81,6 +81,10 @@ class Contract:
         self.inline_depth = kw.pop("inline_depth", 0)
         self.ghost_at = kw.pop("ghost_at", {})     # anchor (ast.unparse of a statement) -> [ghost stmts] run after it
         self.ghost_before = kw.pop("ghost_before", {})  # anchor -> [ghost stmts] run before the statement
+        self.clause_props = kw.pop("clause_props", {})   # obligation detail (label / kind[detail]) -> properties; default: contract props[0:1] for unlisted when given
+        self.from_lemmas = kw.pop("from_lemmas", {})   # ensures label -> earlier clauses it follows from (together with the entry facts only)
+        self.use_lemmas = kw.pop("use_lemmas", {})   # ensures label -> labels of earlier ensures clauses used as lemmas for it
+        self.abstract = kw.pop("abstract", [])      # blocks of statements replaced by a havoc of locals (checked syntactically)
         self.lemmas_at = kw.pop("lemmas_at", {})
         self.unroll = kw.pop("unroll", {})          # loop ordinal -> max iterations (bounded proof, P<=n)
         self.scenarios = kw.pop("scenarios", None)
